@@ -1321,6 +1321,11 @@ def contains(I, cont, x):
 # ===================================================================== attributes
 def getattr(I, obj, name):
     st = I.st
+    if isinstance(obj, MaskedSel):
+        r = resolve_masked(I, obj)          # the selection itself is needed: decide the mask
+        if r is None:
+            raise Unsupported('attribute %s of a boolean-mask selection of symbolic shape' % name)
+        return getattr(I, r, name)
     if isinstance(obj, SuperV):
         mro = obj.obj.cls.mro() if obj.obj.cls is not None else []
         if obj.cls not in mro:
